@@ -50,6 +50,8 @@ def ensure_env():
 
 
 def use_repo():
+    import warnings
+    warnings.filterwarnings('ignore')   # e.g. graphviz DotSyntaxWarning for odd labels
     if REPO not in sys.path[:1]:
         sys.path.insert(0, REPO)
     import concepts
